@@ -600,9 +600,9 @@ pub fn step<T, E: std::fmt::Display>(stage: &'static str, agg: usize, f: impl Fn
 
 /// Everything one aggregator is handed for one report.
 #[derive(Clone, Debug)]
-pub struct AggInput {
+pub struct AggInput<const K: usize = 32> {
     pub agg_id: usize,
-    pub verify_key: [u8; 32],
+    pub verify_key: [u8; K],
     pub ctx: Vec<u8>,
     pub nonce: [u8; 16],
     pub public_share: Vec<u8>,
@@ -628,14 +628,14 @@ where
     Ok(Sharded { public_share, input_shares })
 }
 
-pub struct InitOut<V: Aggregator<32, 16>> {
+pub struct InitOut<V: Aggregator<K, 16>, const K: usize = 32> {
     pub state: V::VerifyState,
     pub verifier_share: Vec<u8>,
 }
 
-pub fn init_wire<V>(vdaf: &V, agg_param: &V::AggregationParam, a: &AggInput) -> Result<InitOut<V>, Fail>
+pub fn init_wire<V, const K: usize>(vdaf: &V, agg_param: &V::AggregationParam, a: &AggInput<K>) -> Result<InitOut<V, K>, Fail>
 where
-    V: Aggregator<32, 16>,
+    V: Aggregator<K, 16>,
 {
     let ps = step("decode_public_share", a.agg_id, || V::PublicShare::get_decoded_with_param(vdaf, &a.public_share))?;
     let is = step("decode_input_share", a.agg_id, || V::InputShare::get_decoded_with_param(&(vdaf, a.agg_id), &a.input_share))?;
@@ -645,9 +645,9 @@ where
 }
 
 /// Decode verifier shares (with `state` as decoding parameter) and combine them.
-pub fn combine_wire<V>(vdaf: &V, ctx: &[u8], agg_param: &V::AggregationParam, state: &V::VerifyState, shares: &[Vec<u8>]) -> Result<Vec<u8>, Fail>
+pub fn combine_wire<V, const K: usize>(vdaf: &V, ctx: &[u8], agg_param: &V::AggregationParam, state: &V::VerifyState, shares: &[Vec<u8>]) -> Result<Vec<u8>, Fail>
 where
-    V: Aggregator<32, 16>,
+    V: Aggregator<K, 16>,
 {
     let mut decoded = vec![];
     for (j, s) in shares.iter().enumerate() {
@@ -657,14 +657,14 @@ where
     step("encode_verifier_message", 0, || msg.get_encoded())
 }
 
-pub enum NextOut<V: Aggregator<32, 16>> {
+pub enum NextOut<V: Aggregator<K, 16>, const K: usize = 32> {
     Continue(V::VerifyState, Vec<u8>),
     Finish(Vec<u8>),
 }
 
-pub fn next_wire<V>(vdaf: &V, agg: usize, ctx: &[u8], agg_param: &V::AggregationParam, state: V::VerifyState, msg: &[u8]) -> Result<NextOut<V>, Fail>
+pub fn next_wire<V, const K: usize>(vdaf: &V, agg: usize, ctx: &[u8], agg_param: &V::AggregationParam, state: V::VerifyState, msg: &[u8]) -> Result<NextOut<V, K>, Fail>
 where
-    V: Aggregator<32, 16>,
+    V: Aggregator<K, 16>,
 {
     let m = step("decode_verifier_message", agg, || V::VerifierMessage::get_decoded_with_param(&state, msg))?;
     let tr = step("verify_next", agg, || vdaf.verify_next(ctx, state, m))?;
@@ -687,9 +687,9 @@ where
 }
 
 /// Honest one-round verification of one report over the wire. Returns the encoded output shares.
-pub fn verify_report_wire<V>(vdaf: &V, agg_param: &V::AggregationParam, inputs: &[AggInput]) -> Result<Vec<Vec<u8>>, Fail>
+pub fn verify_report_wire<V, const K: usize>(vdaf: &V, agg_param: &V::AggregationParam, inputs: &[AggInput<K>]) -> Result<Vec<Vec<u8>>, Fail>
 where
-    V: Aggregator<32, 16>,
+    V: Aggregator<K, 16>,
 {
     let mut states = vec![];
     let mut shares = vec![];
@@ -732,9 +732,9 @@ where
 }
 
 /// Aggregate encoded output shares per aggregator through the wire, then unshard.
-pub fn aggregate_unshard_wire<V>(vdaf: &V, agg_param: &V::AggregationParam, per_agg_out_shares: &[Vec<Vec<u8>>], num_measurements: usize) -> Result<V::AggregateResult, Fail>
+pub fn aggregate_unshard_wire<V, const K: usize>(vdaf: &V, agg_param: &V::AggregationParam, per_agg_out_shares: &[Vec<Vec<u8>>], num_measurements: usize) -> Result<V::AggregateResult, Fail>
 where
-    V: Aggregator<32, 16> + Collector,
+    V: Aggregator<K, 16> + Collector,
 {
     let mut agg_shares = vec![];
     for (j, outs) in per_agg_out_shares.iter().enumerate() {
